@@ -52,6 +52,16 @@ def check(model: Model, run: Run) -> None:
     mod = parse.module
     run.analysed(parse)
 
+    # ------------------------------------------------------------------ R9 nested declared lengths
+    run.rule(
+        'C08.R9',
+        'inside the attribute decoders a length read from the attribute (sub-TLV length, segment count, next-hop length) is '
+        'compared with what is left of the buffer before it bounds a slice or advances the cursor: python slices shorten '
+        'silently, so an unchecked nested length that overruns is accepted as a shorter valid value',
+        floor=12,
+    )
+    _r9_nested_lengths(model, run)
+
     # ------------------------------------------------------------------ R1
     run.rule(
         'C08.R1',
@@ -328,47 +338,103 @@ def _r2_length_guard(model: Model, run: Run, parse) -> None:
         )
 
 
-def _handler_plan(model: Model, parse, h: ast.ExceptHandler) -> list[tuple[str, str]]:
-    """Sequence of (flag tested, effect) for an except arm, plus the tail."""
-    plan: list[tuple[str, str]] = []
+FLAG_CASES = {
+    'TREAT_AS_WITHDRAW': {'TREAT_AS_WITHDRAW': True, 'DISCARD': False},
+    'DISCARD': {'TREAT_AS_WITHDRAW': False, 'DISCARD': True},
+    'tail': {'TREAT_AS_WITHDRAW': False, 'DISCARD': False},
+}
+
+
+def _arm_eval(model: Model, parse, body: list[ast.stmt], case: str) -> str:
+    """What an except arm does for an attribute class whose RFC 7606 flags are those of `case`: the statements are
+    executed over abstract values (None / an object of a known class), tests on the flags are decided by the case."""
     mod = parse.module
-    # an if / elif / else ladder whose branches leave the arm reads like consecutive ifs
-    flat: list[ast.stmt] = []
+    flags = FLAG_CASES[case]
+    env: dict[str, tuple] = {}
+    kls_names = {dotted(n.value) for st in body for n in ast.walk(st) if isinstance(n, ast.Attribute) and n.attr in flags and dotted(n.value)}
+    eff: list[str] = []
 
-    def flatten(sts: list[ast.stmt]) -> None:
+    def aval(e: ast.AST) -> tuple:
+        if isinstance(e, ast.Constant) and e.value is None:
+            return ('none',)
+        if isinstance(e, ast.Call):
+            nm = model.callees(mod, e)
+            return ('obj', nm[0].rsplit('.', 1)[-1] if nm else (dotted(e.func) or '?').rsplit('.', 1)[-1])
+        if isinstance(e, ast.IfExp):
+            t = ev(e.test)
+            if t is True:
+                return aval(e.body)
+            if t is False:
+                return aval(e.orelse)
+            return ('unk',)
+        if isinstance(e, ast.Name):
+            return env.get(e.id, ('unk',))
+        return ('unk',)
+
+    def ev(e: ast.AST):
+        if isinstance(e, ast.Attribute) and e.attr in flags:
+            return flags[e.attr]
+        if isinstance(e, (ast.Name, ast.Attribute)) and dotted(e) in kls_names:
+            return None if case == 'tail' else True
+        if isinstance(e, ast.Name):
+            v = env.get(e.id, ('unk',))
+            return False if v[0] == 'none' else (True if v[0] == 'obj' else None)
+        if isinstance(e, ast.UnaryOp) and isinstance(e.op, ast.Not):
+            t = ev(e.operand)
+            return None if t is None else (not t)
+        if isinstance(e, ast.BoolOp):
+            vs = [ev(v) for v in e.values]
+            if isinstance(e.op, ast.And):
+                return False if any(v is False for v in vs) else (True if all(v is True for v in vs) else None)
+            return True if any(v is True for v in vs) else (False if all(v is False for v in vs) else None)
+        if isinstance(e, ast.Compare) and len(e.ops) == 1 and isinstance(e.comparators[0], ast.Constant) and e.comparators[0].value is None:
+            v = aval(e.left)
+            isnone = True if v[0] == 'none' else (False if v[0] == 'obj' else None)
+            if isnone is None:
+                return None
+            return isnone if isinstance(e.ops[0], (ast.Is, ast.Eq)) else (not isnone)
+        return None
+
+    def run_block(sts: list[ast.stmt]) -> str | None:
         for st in sts:
-            flat.append(st)
-            if isinstance(st, ast.If) and st.orelse:
-                flatten(st.orelse)
+            if isinstance(st, ast.If):
+                t = ev(st.test)
+                if t is None:
+                    return 'undecided:' + norm(st.test)[:50]
+                r = run_block(st.body if t else st.orelse)
+                if r is not None:
+                    return r
+            elif isinstance(st, (ast.Assign, ast.AnnAssign)) :
+                tg = st.targets[0] if isinstance(st, ast.Assign) else st.target
+                if isinstance(tg, ast.Name) and st.value is not None:
+                    env[tg.id] = aval(st.value)
+            elif isinstance(st, ast.Expr) and isinstance(st.value, ast.Call):
+                c = st.value
+                if model.call_matches(mod, c, 'AttributeCollection.add') and c.args:
+                    v = aval(c.args[0])
+                    eff.append('add:' + (v[1] if v[0] == 'obj' else '?'))
+                elif isinstance(c.func, ast.Attribute) and c.func.attr in ('remove', 'pop', 'clear', '__delitem__') and dotted(c.func.value) == 'self':
+                    eff.append('remove')
+            elif isinstance(st, ast.Delete):
+                eff.append('remove')
+            elif isinstance(st, ast.Continue):
+                eff.append('return:continue-walk')
+                return ' '.join(eff)
+            elif isinstance(st, ast.Return):
+                eff.append('return' + (':continue-walk' if _continues_walk(model, parse, st) else ''))
+                return ' '.join(eff)
+            elif isinstance(st, ast.Raise):
+                eff.append('raise')
+                return ' '.join(eff)
+        return None
 
-    flatten(h.body)
-    for st in flat:
-        if isinstance(st, ast.Pass):
-            continue
-        if isinstance(st, ast.If):
-            flags = [n.attr for n in ast.walk(st.test) if isinstance(n, ast.Attribute) and n.attr in ('TREAT_AS_WITHDRAW', 'DISCARD')]
-            eff = []
-            for n in st.body:
-                for c in walk_no_nested(n):
-                    if isinstance(c, ast.Call) and model.call_matches(mod, c, 'AttributeCollection.add') and c.args and isinstance(c.args[0], ast.Call):
-                        nm = model.callees(mod, c.args[0])
-                        eff.append('add:' + (nm[0].rsplit('.', 1)[-1] if nm else '?'))
-                    if isinstance(c, ast.Return):
-                        eff.append('return' + (':continue-walk' if _continues_walk(model, parse, c) else ''))
-                    if isinstance(c, ast.Continue):
-                        eff.append('return:continue-walk')
-                    if isinstance(c, ast.Raise):
-                        eff.append('raise')
-            plan.append((','.join(flags), ' '.join(eff)))
-        elif isinstance(st, ast.Raise):
-            plan.append(('tail', 'raise'))
-        elif isinstance(st, ast.Expr) and isinstance(st.value, ast.Constant):
-            continue
-        elif isinstance(st, ast.Expr) and isinstance(st.value, ast.Call) and dotted(st.value.func) in ('log.debug', 'log.warning', 'log.info'):
-            continue
-        else:
-            plan.append(('other', norm(st)[:60]))
-    return plan
+    r = run_block(body)
+    return r if r is not None else ' '.join(eff + ['falls-through'])
+
+
+def _handler_plan(model: Model, parse, h: ast.ExceptHandler) -> list[tuple[str, str]]:
+    """(RFC 7606 class of the attribute, what the arm does for it) for the three classes."""
+    return [(case, _arm_eval(model, parse, h.body, case)) for case in FLAG_CASES]
 
 
 def _continues_walk(model: Model, parse, ret: ast.AST) -> bool:
@@ -432,10 +498,26 @@ def _r5_discard(model: Model, run: Run, parse) -> None:
     mod = parse.module
     pm = parent_map(parse.node)
     n_paths = 0
+    in_arms: set[int] = set()
+    t = _unpack_try(model, parse)
+    for h in (t.handlers if t is not None else []):
+        # the arms of the decoder call: what they do for an attribute of the discard class
+        n_paths += 1
+        in_arms |= {id(x) for st in h.body for x in ast.walk(st)}
+        got = _arm_eval(model, parse, h.body, 'DISCARD')
+        if got.endswith('return:continue-walk') and 'remove' not in got and 'raise' not in got:
+            run.ok('parse: DISCARD case of the arm at %s' % parse.loc(h), got)
+        else:
+            run.violation(
+                parse.qualname,
+                'DISCARD branch: %s' % got,
+                parse.loc(h),
+                'an attribute-discard branch must go on with the remaining attributes (and not drop collected ones)',
+            )
     for n in walk_no_nested(parse.node):
         if isinstance(n, ast.If):
             flags = [a.attr for a in ast.walk(n.test) if isinstance(a, ast.Attribute) and a.attr == 'DISCARD']
-            if not flags:
+            if not flags or id(n) in in_arms:
                 continue
             n_paths += 1
             last = n.body[-1] if n.body else None
@@ -490,6 +572,15 @@ def _r6_zero(model: Model, run: Run, parse, attrs: list[dict]) -> None:
         'zero-length branch tests length == 0 and not VALID_ZERO, precedes the decoder and adds the marker',
         parse.loc(found),
         'the zero-length test must precede the decoder call, test length == 0 and not VALID_ZERO, and add the marker',
+    )
+    run.check(
+        always_exits(found.body),
+        parse.qualname,
+        'no path through the zero-length branch reaches the decoder',
+        parse.loc(found),
+        'an empty value of a class that is not VALID_ZERO must end in a marker on every path: the decoders of the community '
+        'attributes, TUNNEL_ENCAP and PREFIX_SID accept an empty value (0 is a multiple of their element size), so a path '
+        'that falls through to Attribute.unpack accepts what RFC 7606 calls malformed and the routes are announced',
     )
     allowed_zero = {2, 6, 17}  # AS_PATH (empty on iBGP), ATOMIC_AGGREGATE, AS4_PATH
     for rec in attrs:
@@ -547,3 +638,118 @@ def _r8_cache(model: Model, run: Run, folder: Folder) -> None:
     from .C19 import cache_guard_rule
 
     cache_guard_rule(model, run, folder)
+
+
+# ---------------------------------------------------------------------------------------------- R9
+# nested lengths used without a comparison in sight, protected by something else (confirmed by reading)
+R9_TRIAGED = {
+    ('ASPath._unpack_segments_static', 'end'): 'each AS is read with struct.unpack on an exact-size slice inside a try that turns struct.error / IndexError into Notify(3, 11): a short segment is refused, not shortened',
+    ('MPRNLRI._parse_nexthop_and_nlris', 'len_nh'): 'lazy re-parse of bytes MPRNLRI.unpack_attribute validated (next-hop length against the family table and the buffer) before the object was built',
+    ('MPRNLRI._parse_nexthop_and_nlris', 'rd'): 'same: validated by MPRNLRI.unpack_attribute',
+    ('MPRNLRI._parse_nexthop_and_nlris', 'size'): 'same: validated by MPRNLRI.unpack_attribute',
+    ('Attributes.__iter__', 'length'): 'read-only view over an attribute block AttributeCollection.parse already accepted (C08.R2 covers the check there)',
+}
+
+
+def _r9_nested_lengths(model: Model, run: Run) -> None:
+    from .C03 import decode_reachable
+    from .common import CallGraph, short
+
+    cg = CallGraph(model)
+    dec = decode_reachable(model, cg)
+    scope = 'exabgp.bgp.message.update.attribute.'
+
+    def names(e: ast.AST) -> set[str]:
+        return {x.id for x in ast.walk(e) if isinstance(x, ast.Name)}
+
+    def from_content(v: ast.AST) -> str | None:
+        for x in ast.walk(v):
+            if isinstance(x, ast.Subscript) and dotted(x.value) and (isinstance(x.slice, (ast.Name, ast.BinOp)) or (isinstance(x.slice, ast.Constant) and isinstance(x.slice.value, int))):
+                return dotted(x.value)
+            if isinstance(x, ast.Call) and (dotted(x.func) or '').rsplit('.', 1)[-1] in ('unpack', 'unpack_from', 'from_bytes') and x.args:
+                arg = x.args[1] if len(x.args) >= 2 else x.args[0]
+                for y in ast.walk(arg):
+                    if isinstance(y, ast.Subscript) and dotted(y.value):
+                        return dotted(y.value)
+                if dotted(arg):
+                    return dotted(arg)
+        return None
+
+    n_uses = 0
+    n_funcs = 0
+    for q in sorted(dec):
+        if not q.startswith(scope):
+            continue
+        fi = model.funcs[q]
+        assigns = [n for n in walk_no_nested(fi.node) if isinstance(n, (ast.Assign, ast.AnnAssign)) and n.value is not None]
+        lenvars: dict[str, set[str]] = {}
+        for a in assigns:
+            tg = a.targets[0] if isinstance(a, ast.Assign) else a.target
+            b = from_content(a.value)
+            if not b:
+                continue
+            tgs = [tg] if isinstance(tg, ast.Name) else (list(tg.elts) if isinstance(tg, (ast.Tuple, ast.List)) else [])
+            for t in tgs:
+                if isinstance(t, ast.Name):
+                    lenvars.setdefault(t.id, set()).add(b)
+        changed = True
+        while changed:
+            changed = False
+            for a in assigns:
+                tg = a.targets[0] if isinstance(a, ast.Assign) else a.target
+                if isinstance(tg, ast.Name) and isinstance(a.value, (ast.BinOp, ast.Name)) and tg.id not in lenvars:
+                    src = names(a.value) & set(lenvars)
+                    if src:
+                        lenvars[tg.id] = set().union(*[lenvars[x] for x in src])
+                        changed = True
+        if not lenvars:
+            continue
+        n_funcs += 1
+        run.analysed(fi)
+        pm = parent_map(fi.node)
+        cursors = {x.id for n in walk_no_nested(fi.node) if isinstance(n, ast.Subscript) for x in ast.walk(n.slice) if isinstance(x, ast.Name)}
+        cursors |= {x.id for n in walk_no_nested(fi.node) if isinstance(n, ast.While) for x in ast.walk(n.test) if isinstance(x, ast.Name)}
+        uses: list[tuple[ast.AST, set[str], str]] = []
+        for n in walk_no_nested(fi.node):
+            if isinstance(n, ast.Subscript) and isinstance(n.slice, ast.Slice) and isinstance(n.ctx, ast.Load) and dotted(n.value):
+                ls: set[str] = set()
+                for part in (n.slice.upper, n.slice.lower):
+                    if part is not None:
+                        ls |= names(part) & set(lenvars)
+                if ls:
+                    uses.append((n, ls, 'slice'))
+            elif isinstance(n, ast.AugAssign) and isinstance(n.op, ast.Add) and isinstance(n.target, ast.Name) and n.target.id in cursors and names(n.value) & set(lenvars):
+                uses.append((n, names(n.value) & set(lenvars), 'advance'))
+        for n, ls, kind in uses:
+            n_uses += 1
+            why = None
+            for t, _pol in flat_guards(fi.node, n, pm):
+                for c in ast.walk(t):
+                    if isinstance(c, ast.Compare) and names(c) & set(lenvars) and ('len(' in norm(c) or any(nm in lenvars or nm in ('remaining', 'left') for nm in names(c))):
+                        if 'len(' in norm(c):
+                            why = 'compared first: %s' % norm(c)[:70]
+            if why is None:
+                # the buffer was cut to this very length and checked by the shared helper just before
+                for c in walk_no_nested(fi.node):
+                    if isinstance(c, ast.Call) and (dotted(c.func) or '').endswith('check_length') and names(c) & ls and getattr(c, 'lineno', 0) <= getattr(n, 'lineno', 0):
+                        why = 'length checked by %s' % norm(c)[:60]
+            if why is None:
+                tri = [R9_TRIAGED[(short(q), v)] for v in sorted(ls) if (short(q), v) in R9_TRIAGED]
+                if len(tri) == len(ls):
+                    why = 'triaged: ' + tri[0]
+            inst = '%s: %s %s' % (short(q), kind, norm(n)[:60])
+            if why is not None:
+                run.ok(inst, why)
+            else:
+                run.violation(
+                    q,
+                    '%s by a declared length without a bound check: %s' % (kind, norm(n)[:70]),
+                    fi.loc(n),
+                    'the length (%s) comes from the attribute and nothing on the way to this statement compares it with the '
+                    'size of the buffer: a value whose nested length overruns is decoded as a shorter valid one (or the walk '
+                    'jumps past the end and stops) instead of being refused as malformed' % ', '.join(sorted(ls)),
+                    [],
+                )
+    run.extra['nested_length_functions'] = n_funcs
+    if n_uses < 12:
+        run.cannot('only %d uses of nested declared lengths found in the attribute decoders' % n_uses)
